@@ -154,6 +154,9 @@ func GenRequests(g *tape.Stream, fg *tape.Stream, s *Setup, p *Profile) [][]*Req
 				q.Hijacker = 1
 			}
 			q.ReaderFrom = g.Intn(3) == 1
+			if s.BeforeStop && g.Intn(12) == 1 {
+				q.Hdr = append(q.Hdr, [2]string{"X-Stop", "1"})
+			}
 			switch g.Intn(6) {
 			case 1:
 				q.Host = "localhost"
